@@ -19,6 +19,8 @@ type Env struct {
 	oldVars map[string]Value // values of names at the old() point (nil: same as vars)
 	pkgPath string
 	depth   int
+	frame   *Frame // the activation whose locals are bound (loop invariants); nil: root frame
+	frameIx int
 }
 
 type nilT struct{}
@@ -489,6 +491,16 @@ func (x *Exec) isNil(v Value) *Term {
 	panic(fmt.Sprintf("isNil: %T", v))
 }
 
+// ghostHeapSort: the sort of the array representing ghost g (one or two arguments).
+func (x *Exec) ghostHeapSort(g *GhostSpec) Sort {
+	rs := x.ghostSort(g)
+	if len(g.Params) == 2 {
+		env := x.newEnv(nil, g.PkgPath)
+		return arrSort(SInt, arrSort(scalarSort(env.resolveType(g.Params[1].Type)), rs))
+	}
+	return arrSort(SInt, rs)
+}
+
 func (x *Exec) ghostSort(g *GhostSpec) Sort {
 	switch g.Ret {
 	case "bool":
@@ -574,6 +586,47 @@ func (x *Exec) evalCall(env *Env, e *ECall) (Value, types.Type) {
 			panic("contract: addrof: no package-level variable " + name)
 		}
 		return &PtrV{Kind: PRef, Ref: x.globalRef(g), Elem: g.Type().(*types.Pointer).Elem(), Global: g}, g.Type()
+	case "seen": // seen(k, key): key has already been produced by the map iteration driving loop k of this function
+		kk, _ := isLitInt(func() *Term { v, _ := x.eval(env, e.Args[0]); return v.(*Term) }())
+		fr := env.frame
+		ix := env.frameIx
+		if fr == nil {
+			fr = env.st.frames[0]
+			ix = 0
+		}
+		li := x.loopsOf(fr.fn)
+		var rng *ssa.Range
+		for _, h := range li.headers {
+			if li.ordinal[h] != int(kk) {
+				continue
+			}
+			for b := range li.body[h] {
+				for _, in := range b.Instrs {
+					if nx, ok := in.(*ssa.Next); ok && !nx.IsString {
+						if r, ok := nx.Iter.(*ssa.Range); ok {
+							rng = r
+						}
+					}
+				}
+			}
+		}
+		if rng == nil {
+			panic(fmt.Sprintf("contract: seen(%d, ...): loop %d of %s is not a map iteration", kk, kk, funcKey(fr.fn)))
+		}
+		key := iterKey(rng, ix+1)
+		vis, ok := env.st.heap[key]
+		kv, _ := x.eval(env, e.Args[1])
+		if !ok {
+			return tFalse, boolT // iteration not started
+		}
+		return mkSelect(vis, x.asPlainPure(kv).(*Term)), boolT
+	case "has": // has(m, k): key k is present in map m
+		mv, mt := x.eval(env, e.Args[0])
+		kv, _ := x.eval(env, e.Args[1])
+		name := "MP|" + typeID(mt)
+		ph := env.mem.getHeap(name, arrSort(SInt, arrSort(mapKeySort(mt), SBool)))
+		ref := mv.(*Term)
+		return mkAnd(mkNe(ref, mkInt(0)), mkSelect(mkSelect(ph, ref), x.keyTerm(env.st, mt, kv))), boolT
 	case "was": // was(g, x): the ghost g of the node x denotes NOW, looked up in the old() state
 		gname := e.Args[0].(*EIdent).Name
 		g := x.sp.Ghosts[gname]
@@ -581,7 +634,7 @@ func (x *Exec) evalCall(env *Env, e *ECall) (Value, types.Type) {
 			panic("contract: was(ghost, x) needs a ghost name and a postcondition context")
 		}
 		v, _ := x.eval(env, e.Args[1])
-		h := env.old.getHeap("G|"+g.Name, arrSort(SInt, x.ghostSort(g)))
+		h := env.old.getHeap("G|"+g.Name, x.ghostHeapSort(g))
 		return mkSelect(h, x.valRef(env.st, v)), boolT
 	case "errmsg":
 		v, _ := x.eval(env, e.Args[0])
@@ -636,11 +689,15 @@ func (x *Exec) evalCall(env *Env, e *ECall) (Value, types.Type) {
 	}
 	if g, ok := x.sp.Ghosts[e.Fn]; ok {
 		v, _ := x.eval(env, e.Args[0])
-		h := env.mem.getHeap("G|"+g.Name, arrSort(SInt, x.ghostSort(g)))
+		h := env.mem.getHeap("G|"+g.Name, x.ghostHeapSort(g))
 		penv := *env
 		penv.pkgPath = g.PkgPath
 		rt := penv.resolveType(g.Ret)
 		r := mkSelect(h, x.valRef(env.st, v))
+		if len(g.Params) == 2 {
+			v2, _ := x.eval(env, e.Args[1])
+			r = mkSelect(r, x.asPlainPure(v2).(*Term))
+		}
 		if pt, ok := rt.Underlying().(*types.Pointer); ok {
 			return &PtrV{Kind: PRef, Ref: r, Elem: pt.Elem()}, rt
 		}
@@ -656,7 +713,7 @@ func (x *Exec) evalPredLike(env *Env, e *ECall, params []Param, body Expr, pkgPa
 	if env.depth > 40 {
 		panic("contract: predicate nesting too deep (recursive pred?) at " + e.Fn)
 	}
-	inner := &Env{x: x, st: env.st, mem: env.mem, old: env.old, vars: map[string]Value{}, types: map[string]types.Type{}, pkgPath: pkgPath, depth: env.depth + 1}
+	inner := &Env{x: x, st: env.st, mem: env.mem, old: env.old, vars: map[string]Value{}, types: map[string]types.Type{}, pkgPath: pkgPath, depth: env.depth + 1, frame: env.frame, frameIx: env.frameIx}
 	if env.oldVars != nil {
 		inner.oldVars = map[string]Value{}
 	}
